@@ -185,6 +185,10 @@ def apply_op(w, op, rng_state=None):
     k = op["op"]
     x = np.asarray(w.x, dtype=float)
     if not op.get("force"):
+        if k in ("trunc_v", "append", "match", "repeat") and len(np.asarray(w.reference_x)) < 2:
+            raise Skip()          # an earlier cut by index emptied the reference: these operations need one
+        if k == "trunc_v" and len(x) < 2:
+            raise Skip()
         needs_spline = k == "smooth" or (k == "interp" and op["method"] in ("cubic", "spline"))
         if needs_spline and len(x) < 5:
             raise Skip()
@@ -483,6 +487,8 @@ def compare_program(c, io, mo):
             if not (vclose(st["query"][0], parse_rats(f[0])) and vclose(st["query"][1], parse_rats(f[1]))):
                 return f"step {i} (query): slices differ: impl {st['query'][0][:5]} model {f[0][:40]}"
             continue
+        if ans == "unmodelled":
+            return None      # windows outside the closed-form model (float artefact of the adaptive split): stop here
         if "err" in st:
             if not ans.startswith(f"ERR {st['err']}"):
                 if ans.startswith("ERR ZeroDivisionError"):
